@@ -102,6 +102,16 @@ def _chain_then_pack(keys, perpack):
     return op
 
 
+def _then(*ops):
+    """Several calls through the same handle, one after the other (what the first leaves behind in the handle matters)."""
+    def op(cont, contents):
+        out = None
+        for one in ops:
+            out = one(cont, contents)
+        return out
+    return op
+
+
 def _delete(keys):
     def op(cont, contents):
         return cont.delete_objects([hashlib.sha256(contents[k]).hexdigest() for k in keys])
@@ -207,6 +217,11 @@ def all_scenarios(thorough=False):
     for mode in ('KEEP', 'YES', 'NO') + (('AUTO',) if thorough else ()):
         s.append(Scenario(f'repack:{mode}', [('k1', 'packed'), ('k2', 'packedz'), ('k3', 'packed'), ('k5', 'packedz'),
                                               ('k6', 'packed'), ('k8', 'loose')], _repack(mode), target=60, repack=True))
+    # maintenance that ends in a VACUUM, then a pack-writing call through the same handle
+    s.append(Scenario('repack-then-addpack', [('k1', 'packed'), ('k2', 'packedz'), ('k3', 'packed'), ('k8', 'loose')],
+                      _then(_repack('KEEP'), _addpack(['k5', 'k6', 'k7'], False, False, True)), adds=['k5', 'k6', 'k7'], repack=True))
+    s.append(Scenario('cleanvacuum-then-pack', [('k1', 'both'), ('k2', 'loose'), ('k3', 'loose'), ('k5', 'packed')],
+                      _then(_clean(True), _pack('NO', True))))
     s.append(Scenario('loosen:packedz', mixed, _loosen('k3'), adds=['k3']))
     s.append(Scenario('loosen:packed', mixed, _loosen('k6'), adds=['k6']))
     s += history_scenarios(common.seed(), 60 if thorough else 12)
